@@ -453,7 +453,12 @@ def print_ast(ast, syntax, style=None):
 
 # ------------------------------------------------------ reference lexers
 
-HTML_OPENERS = re.compile(r'<dtml-|</dtml-|<!--#|&dtml[-.][-a-zA-Z0-9_.]+;')
+# entity references: &dtml-NAME; and &dtml.MOD1.MOD2-NAME; (possibly without
+# modifiers: &dtml.-NAME;).  The dotted form without a "-NAME" part, or with
+# an empty NAME, is not a tag of the language: it is literal text.
+HTML_OPENERS = re.compile(
+    r'<dtml-|</dtml-|<!--#|&dtml-[-a-zA-Z0-9_.]+;'
+    r'|&dtml\.[a-zA-Z0-9_.]*-[-a-zA-Z0-9_.]+;')
 EPFS_OPENER = re.compile(
     r'%\([a-zA-Z0-9_/.-]+([\x00- ]+[^)]*(\)[^)]*)*)?\)'
     r'([0-9]*\.?[0-9]*[a-zA-Z]|[\[\]!])')
